@@ -4,6 +4,7 @@
    from /repo on every run. *)
 From Coq Require Import ZArith List Bool String.
 From NQ Require Import Base.Bits Lang.Codec Lang.CodecCheck Lang.Asm Lang.AsmSem Lang.Text Lang.TextFront Lang.AsmCheck Proofs.AsmProofs.
+From NQ Require Import Lang.AsmSemQ Lang.AsmQCheck Proofs.AsmQProofs.
 From NQ Require Import Proofs.TextFrontProofs Proofs.TextFrontDecoProofs Proofs.TextFrontMacroProofs Proofs.TextFrontMeaning.
 From Gen Require Import Gen_Codec Gen_Asm.
 Import ListNotations.
@@ -155,6 +156,62 @@ Proof.
            (proj2 C03_front_tables_ok) (proj1 C03_params_ok) (proj2 C03_params_ok)).
 Qed.
 
+(* ---------- event semantics: programs with non-classical instructions ---------- *)
+
+(* the regenerated exemption table keeps the immediates of the gate instructions (and set's) literal *)
+Theorem C03_qexempt_ok : qexempt_ok gen_exempt = true.
+Proof. vm_compute. reflexivity. Qed.
+
+(* the simulation over AsmSemQ: classical instructions as before; gates / init / rotations / two-qubit
+   gates / controlled rotations / EPR instructions emit an event with the operand VALUES, meas writes a
+   scripted outcome, qalloc/qfree keep the unit module, ret_reg/ret_arr emit events.  Related
+   configurations have EQUAL event trace, unit module and remaining script (eqv_q), so the inserted
+   sets emit nothing and the trace of the assembled program is the source's trace. *)
+Theorem C03_assemble_simulates_q (t : list row) P B :
+  wf_src_q P = true -> assemble gen_params t P = AOk B ->
+  forall n ss st, eqv_q gen_params (named P) ss st ->
+  exists m, (n <= m)%nat /\
+            cfg_rel_q gen_params P (arun_q P n (QRun 0 ss)) (arun_q (map embed B) m (QRun 0 st)).
+Proof.
+  intros Hwf Hasm.
+  exact (assemble_simulates_flavour_q gen_params t P B (proj1 C03_params_ok) C03_qexempt_ok Hwf Hasm).
+Qed.
+
+Theorem C03_assemble_preserves_result_q P T :
+  wf_src_q P = true -> assemble_ir gen_params P = AOk T ->
+  forall n ss st, eqv_q gen_params (named P) ss st ->
+  (forall pc s, arun_q P n (QRun 0 ss) <> QRun pc s) ->
+  exists m0, forall m, (m0 <= m)%nat ->
+    cfg_rel_q gen_params P (arun_q P n (QRun 0 ss)) (arun_q T m (QRun 0 st)).
+Proof.
+  intros Hwf Hasm.
+  exact (assemble_preserves_result_q gen_params P T (proj1 C03_params_ok) C03_qexempt_ok Hwf Hasm).
+Qed.
+
+Theorem C03_assemble_trace_q P T :
+  wf_src_q P = true -> assemble_ir gen_params P = AOk T ->
+  forall n ss st, eqv_q gen_params (named P) ss st ->
+  forall s, arun_q P n (QRun 0 ss) = QHalted s ->
+  exists m t, arun_q T m (QRun 0 st) = QHalted t /\ qa_trace t = qa_trace s /\ qa_um t = qa_um s
+              /\ qa_script t = qa_script s /\ eqv gen_params (named P) (qa_st s) (qa_st t).
+Proof.
+  intros Hwf Hasm.
+  exact (assemble_trace_q gen_params P T (proj1 C03_params_ok) C03_qexempt_ok Hwf Hasm).
+Qed.
+
+Theorem C03_text_program_meaning_q (t : list row) ds P :
+  wf_proto gen_banks gen_ginstrs P = true -> wf_src_q P = true -> forallb deco_ok ds = true ->
+  exists R, assemble_text gen_params gen_banks gen_ginstrs t (decorate ds (print_proto gen_banks P)) = Some R
+            /\ R = assemble gen_params t P /\
+  forall B, R = AOk B ->
+  forall n ss st, eqv_q gen_params (named P) ss st ->
+  exists m, (n <= m)%nat /\
+            cfg_rel_q gen_params P (arun_q P n (QRun 0 ss)) (arun_q (map embed B) m (QRun 0 st)).
+Proof.
+  exact (text_program_meaning_q gen_params gen_banks gen_ginstrs t ds P (proj1 C03_front_tables_ok)
+           (proj2 C03_front_tables_ok) (proj1 C03_params_ok) C03_qexempt_ok).
+Qed.
+
 (* non-vacuity: a program with a counted loop, consecutive labels, a label after the
    last instruction, literals at top level and as array index, bracket args and a
    register that occurs only as an index meets the hypotheses, assembles, and both
@@ -209,6 +266,34 @@ Example C03_front_nonvacuous :
      end = true.
 Proof. vm_compute. reflexivity. Qed.
 
+(* a program with qalloc on a literal, init, a rotation with immediates, cnot on a literal qubit,
+   a measurement with scripted outcome 1, a branch on it, returns and qfree: well-formed, assembled
+   for the vanilla table, source and assembled program halt with the same eight events *)
+Example C03_q_nonvacuous :
+  let P := [AIns "set" [] [AV (VReg 2 1); AV (VLit 1)]; AIns "qalloc" [] [AV (VLit 0)];
+            AIns "qalloc" [] [AV (VReg 2 1)]; AIns "init" [] [AV (VReg 2 1)];
+            AIns "rot_x" [] [AV (VReg 2 1); AV (VLit 1); AV (VLit 2)];
+            AIns "cnot" [] [AV (VLit 0); AV (VReg 2 1)];
+            AIns "meas" [] [AV (VReg 2 1); AV (VReg 3 0)];
+            AIns "bez" [] [AV (VReg 3 0); ALabel "skip"];
+            AIns "x" [] [AV (VLit 0)]; ALab "skip";
+            AIns "ret_reg" [] [AV (VReg 3 0)]; AIns "qfree" [] [AV (VReg 2 1)]] in
+  wf_src_q P &&
+  match assemble gen_params gen_vanilla P with
+  | AOk B =>
+      match arun_q P 100 (QRun 0 (init_qstate 5 [1])), arun_q (map embed B) 100 (QRun 0 (init_qstate 5 [1])) with
+      | QHalted a, QHalted b =>
+          list_eqb aevent_eqb (qa_trace a) (qa_trace b)
+          && list_eqb aevent_eqb (rev (qa_trace a))
+               [EvAlloc 0; EvAlloc 1; EvGate "init" [] [1]; EvGate "rot_x" [1; 2] [1]; EvGate "cnot" [] [0; 1];
+                EvMeas 1 1; EvGate "x" [] [0]; EvRetReg (3, 0) 1; EvFree 1]
+          && list_eqb Bool.eqb (qa_um b) [true; false; false; false; false]
+      | _, _ => false
+      end
+  | AErr _ => false
+  end = true.
+Proof. vm_compute. reflexivity. Qed.
+
 Print Assumptions C03_assemble_simulates.
 Print Assumptions C03_assemble_preserves_result.
 Print Assumptions C03_labels_resolve.
@@ -220,3 +305,6 @@ Print Assumptions C03_decorate_parse.
 Print Assumptions C03_text_program_meaning.
 Print Assumptions C03_with_defines_parse.
 Print Assumptions C03_apply_macros_subst.
+Print Assumptions C03_assemble_simulates_q.
+Print Assumptions C03_assemble_trace_q.
+Print Assumptions C03_text_program_meaning_q.
